@@ -49,7 +49,9 @@ def gen_cases(rng, tier):
         ops = []
         for _ in range(rng.randrange(1, 8)):
             r = rng.random()
-            if r < 0.6:
+            if r < 0.08 and role == "C":
+                ops.append("P:%d" % rng.randrange(1, 4))       # the PRACK for a later 1xx that names another Contact
+            elif r < 0.6:
                 ops.append("Q:" + rng.choice(METHODS))
             elif r < 0.75:
                 ops.append("J:%d" % rng.randrange(2, 7))
@@ -61,6 +63,8 @@ def gen_cases(rng, tier):
                 ops.append("Q:" + rng.choice(METHODS))
         cases.append(["d%d" % i, "c11", role, "cid%d" % i, "sip:me@example.org", "lt%d" % i, rng.choice(URIS), "pt%d" % i,
                       rng.choice(CONTACTS), " ".join(rr), str(icseq), str(c0), ",".join(ops)])
+    for j, ops in enumerate(("P:1", "Q:INFO,P:2,P:3,Q:BYE", "P:1,J:3,P:1")):
+        cases.append(["dp%d" % j, "c11", "C", "cidp%d" % j, "sip:me@example.org", "ltp%d" % j, URIS[j % len(URIS)], "ptp%d" % j, CONTACTS[j % len(CONTACTS)], RRS[0], "77", "1000", ops])
     # the responses the invite usage / acceptor generates for the dialog-creating INVITE on every path (accept, reject, CANCEL,
     # BYE on the early dialog, reliable provisionals): each one above 100 must carry the dialog's local tag
     import importlib
@@ -120,6 +124,10 @@ _TRIVIAL = None
 def model_case(case, impl):
     if case[2] == "ua":
         return [case[0], "c11", "S", "cid", "sip:me@example.org", "lt", URIS[0], "pt", CONTACTS[0], "", "1", "1", ""]
+    if "P:" in case[12]:
+        # a PRACK is a request created in the dialog like any other
+        import re
+        return case[:12] + [re.sub(r"P:\d+", "Q:PRACK", case[12])]
     return case
 
 
@@ -212,6 +220,8 @@ def _oracle_dialog(case, impl):
     last = None if role == "S" else icseq
     for op, o in zip(ops, obs):
         kind, _, arg = op.partition(":")
+        if kind == "P":
+            kind, arg = "Q", "PRACK"
         if kind == "Q":
             want = "Q m=%s uri=%s from=%s|%s to=%s|%s cid=%s cseq=%d %s mf=70 route=%s" % (
                 arg, contact, local_uri, lt, peer_uri, peer_tag, callid, nxt, arg, ",".join(route))
